@@ -2,6 +2,7 @@ package main
 
 import (
 	"fmt"
+	"go/constant"
 	"go/types"
 	"strconv"
 	"strings"
@@ -287,7 +288,7 @@ func init() {
 
 func isNamedType(t types.Type, name string) bool {
 	nt, ok := t.(*types.Named)
-	return ok && nt.Obj().Name() == name
+	return ok && refNameOf(nt.Obj()) == name
 }
 
 // ---- CE-COPYN: encoderDict.CopyN hands out the last n encoded bytes, in order ----
@@ -380,4 +381,206 @@ func ruleCopyNCE(c *Ctx, r *Report, prefix string) {
 
 func init() {
 	debugRules["copyn"] = func(c *Ctx, r *Report) { ruleCopyNCE(c, r, "") }
+}
+
+// ---- CE-FORMAT-NORM (C15): gxz' format normalisation ----
+//
+// normalizeFormat is evaluated for every spelling of -F the usage text names (and some it does not)
+// with and without -d. On success options.format is what the rest of gxz keys on - the `formats`
+// table, the suffix `"." + opts.format` of targetName, the .tlz/.txz choice: "xz" or "lzma", and
+// "auto" only when decompressing; "alone" is another name of "lzma"; compression without a
+// choice is xz; anything else is refused.
+// Necessary: a name that passes unnormalised gives `f.alone` / "unknown suffix" for a valid .lzma
+// file (flag semantics, name round trip of C15).
+func ruleFormatNormCE(c *Ctx, r *Report, prefix string) {
+	rule := prefix + "CE-FORMAT-NORM"
+	fn := c.Func("cmd/gxz", "normalizeFormat")
+	ot := c.Type("cmd/gxz", "options")
+	if fn == nil || ot == nil {
+		return
+	}
+	iFmt, iDec := fieldIndex(ot, "format"), fieldIndex(ot, "decompress")
+	if iFmt < 0 || iDec < 0 {
+		c.miss("fields of gxz.options")
+		return
+	}
+	// accepted shapes: the options by pointer, or the format name (string) and the decompress flag
+	// (bool) as separate parameters; results: an error, optionally preceded by the normalised name
+	shapeOK := fn.Signature.Recv() == nil
+	nStr, nBool, nOpt := 0, 0, 0
+	for _, p := range fn.Params {
+		switch {
+		case types.Identical(p.Type(), types.NewPointer(ot)):
+			nOpt++
+		case types.Identical(p.Type(), types.Typ[types.String]):
+			nStr++
+		case types.Identical(p.Type(), types.Typ[types.Bool]):
+			nBool++
+		default:
+			shapeOK = false
+		}
+	}
+	res := fn.Signature.Results()
+	strRes := res.Len() == 2 && types.Identical(res.At(0).Type(), types.Typ[types.String])
+	if !((nOpt == 1 && nStr == 0 && nBool == 0) || (nOpt == 0 && nStr == 1 && nBool == 1)) || !(res.Len() == 1 || strRes) || !isErrType(res.At(res.Len()-1).Type()) {
+		shapeOK = false
+	}
+	if !shapeOK || (nOpt == 0 && !strRes) {
+		r.Undecided(rule, FnName(fn), c.Pos(fn.Pos()), "normalizeFormat has neither the form func(*options) error nor func(format string, decompress bool) (string, error)")
+		return
+	}
+	type tc struct {
+		in   string
+		dec  bool
+		want string // "" = refused
+	}
+	var cases []tc
+	for _, dec := range []bool{false, true} {
+		auto := "xz"
+		if dec {
+			auto = "auto"
+		}
+		cases = append(cases, tc{"xz", dec, "xz"}, tc{"lzma", dec, "lzma"}, tc{"alone", dec, "lzma"}, tc{"auto", dec, auto},
+			tc{"", dec, ""}, tc{"gz", dec, ""}, tc{"XZ", dec, ""}, tc{"lzma2", dec, ""}, tc{".xz", dec, ""})
+	}
+	bad, cnt := "", 0
+	for _, t := range cases {
+		in := NewInterp(c)
+		in.MaxSteps = 20000
+		cl := in.newCellOf(ot)
+		cl.field(iFmt).v = aConst(constant.MakeString(t.in), types.Typ[types.String])
+		cl.field(iDec).v = aConst(constant.MakeBool(t.dec), types.Typ[types.Bool])
+		var args []aval
+		for _, p := range fn.Params {
+			switch {
+			case nOpt == 1:
+				args = append(args, aval{k: kPtr, cell: cl})
+			case types.Identical(p.Type(), types.Typ[types.String]):
+				args = append(args, cl.field(iFmt).v)
+			default:
+				args = append(args, cl.field(iDec).v)
+			}
+		}
+		res := in.Call(fn, args)
+		cnt++
+		what := fmt.Sprintf("normalizeFormat with format %q, decompress=%v", t.in, t.dec)
+		if !res.OK || res.Panicked || len(res.Rets) != fn.Signature.Results().Len() {
+			r.Undecided(rule, FnName(fn), c.Pos(fn.Pos()), "cannot evaluate "+what+": "+in.Undecided)
+			return
+		}
+		refused := isSomeErr(res.Rets[len(res.Rets)-1])
+		got := cl.field(iFmt).v
+		if strRes {
+			got = res.Rets[0]
+		}
+		gs := "?"
+		if got.k == kConst && got.c != nil && got.c.Kind() == constant.String {
+			gs = constant.StringVal(got.c)
+		}
+		switch {
+		case t.want == "" && !refused:
+			bad = fmt.Sprintf("%s is accepted (format left as %q): only xz, lzma, alone and auto are format names", what, gs)
+		case t.want != "" && refused:
+			bad = fmt.Sprintf("%s is refused: it is one of the documented format names", what)
+		case t.want != "" && gs != t.want:
+			bad = fmt.Sprintf("%s leaves format %q, want %q: the codec table, the target suffix (\".\"+format) and the .tlz/.txz mapping key on the normalised name", what, gs, t.want)
+		}
+		if bad != "" {
+			break
+		}
+	}
+	r.Check(bad == "", rule, FnName(fn), c.Pos(fn.Pos()), fmt.Sprintf("maps xz/lzma/alone/auto to xz, lzma or (decompressing only) auto and refuses other names (%d evaluations)", cnt), bad)
+}
+
+func init() {
+	debugRules["formatnorm"] = func(c *Ctx, r *Report) { ruleFormatNormCE(c, r, "") }
+}
+
+// ---- CE-BT-WRITE (C17): binTree.Write is WriteByte, byte by byte ----
+//
+// The dictionary advances by one position per byte and the tree's ring (front, hoff) must follow
+// it: binTree.distance turns node indices into distances relative to front. Write(p) is therefore
+// the same state change as WriteByte for every byte of p. Both are evaluated on trees of 3 and 5
+// nodes (so that old nodes are removed and the ring wraps) for all byte strings over {1,2} up to
+// length 7, each cut into two Write calls at every position, and the resulting trees are compared
+// cell by cell.
+// Necessary: a Write that inserts one word less (or more) shifts every later distance the tree
+// delivers; they fail verification and the BinaryTree matcher finds nothing beyond distance 3 (C17).
+func ruleBinTreeWriteCE(c *Ctx, r *Report, prefix string) {
+	rule := prefix + "CE-BT-WRITE"
+	nbt := c.Func("lzma", "newBinTree")
+	wr, wb := c.Func("lzma", "binTree.Write"), c.Func("lzma", "binTree.WriteByte")
+	if nbt == nil || wr == nil || wb == nil {
+		return
+	}
+	if len(nbt.Params) != 1 || len(wr.Params) != 2 || len(wb.Params) != 2 {
+		r.Undecided(rule, FnName(wr), c.Pos(wr.Pos()), "newBinTree / Write / WriteByte no longer have the reference signatures")
+		return
+	}
+	bsT := wr.Params[1].Type()
+	mk := func(capacity int) (*Interp, aval, string) {
+		in := NewInterp(c)
+		in.MaxSteps = 400000
+		res := in.Call(nbt, []aval{aInt(int64(capacity), types.Typ[types.Int])})
+		if !res.OK || res.Panicked || len(res.Rets) != 2 || res.Rets[0].k != kPtr {
+			return nil, aval{}, "cannot evaluate newBinTree: " + in.Undecided
+		}
+		return in, res.Rets[0], ""
+	}
+	bad, cnt := "", 0
+	for _, capacity := range []int{3, 5} {
+		for L := 0; L <= 7 && bad == ""; L++ {
+			for bits := 0; bits < 1<<uint(L) && bad == ""; bits++ {
+				s := make([]byte, L)
+				for i := range s {
+					s[i] = byte(1 + (bits>>uint(i))&1)
+				}
+				inA, tA, e := mk(capacity)
+				if e != "" {
+					r.Undecided(rule, FnName(wr), c.Pos(wr.Pos()), e)
+					return
+				}
+				for _, b := range s {
+					res := inA.Call(wb, []aval{tA, aInt(int64(b), types.Typ[types.Uint8])})
+					if !res.OK || res.Panicked {
+						r.Undecided(rule, FnName(wb), c.Pos(wb.Pos()), fmt.Sprintf("cannot evaluate WriteByte on a tree of %d nodes: %s", capacity, inA.Undecided))
+						return
+					}
+				}
+				for k := 0; k <= L && bad == ""; k++ {
+					inB, tB, e := mk(capacity)
+					if e != "" {
+						r.Undecided(rule, FnName(wr), c.Pos(wr.Pos()), e)
+						return
+					}
+					for _, piece := range [][]byte{s[:k], s[k:]} {
+						res := inB.Call(wr, []aval{tB, aBytes(inB, piece, bsT)})
+						cnt++
+						if !res.OK || len(res.Rets) != 2 && !res.Panicked {
+							r.Undecided(rule, FnName(wr), c.Pos(wr.Pos()), fmt.Sprintf("cannot evaluate Write of %d bytes on a tree of %d nodes: %s", len(piece), capacity, inB.Undecided))
+							return
+						}
+						if res.Panicked {
+							bad = fmt.Sprintf("Write(%v) panics on a tree of %d nodes after %d bytes", piece, capacity, k)
+							break
+						}
+						if n, okN := res.Rets[0].Int(); !okN || int(n) != len(piece) || isSomeErr(res.Rets[1]) {
+							bad = fmt.Sprintf("Write(%v) on a tree of %d nodes does not return (%d, nil)", piece, capacity, len(piece))
+							break
+						}
+					}
+					if bad == "" {
+						if d := cellDiff(tA.cell, tB.cell, "binTree", map[*cell]bool{}, 0); d != "" {
+							bad = fmt.Sprintf("on a tree of %d nodes Write(%v) then Write(%v) leaves another tree than WriteByte for each of the bytes (first difference at %s): front / hoff no longer follow the dictionary, so the distances of all later candidates are off and fail verification (no matches beyond distance 3)", capacity, s[:k], s[k:], d)
+						}
+					}
+				}
+			}
+		}
+	}
+	r.Check(bad == "", rule, FnName(wr), c.Pos(wr.Pos()), fmt.Sprintf("Write(p) is WriteByte for every byte of p on trees of 3 and 5 nodes (%d evaluated Write calls)", cnt), bad)
+}
+
+func init() {
+	debugRules["btwrite"] = func(c *Ctx, r *Report) { ruleBinTreeWriteCE(c, r, "") }
 }
